@@ -1135,8 +1135,9 @@ class WcParse(Generic[AnyStr]):
                 if self.pathname:
                     raise StopIteration
                 value = c
-            elif c in SET_OPERATORS:
+            elif c in SET_OPERATORS or c == '#':
                 # Escape &, |, and ~ to avoid &&, ||, and ~~
+                # Escape # so that a set can never contain the text of the internal `(?#)` marker
                 value = '\\' + c
             else:
                 # Anything else
